@@ -17,7 +17,8 @@ RULE = (
     "arbitrarily over any leaf, flows included; no fan-out collections), a weighted stream, and for a generated subset "
     "of stream positions a fault (depth of the node whose quantity fails; mode: raise ValueError, or return a wrong "
     "type - string / None / list for numeric quantities, float / list for categories; or the almost-right numpy.bool_, "
-    "which a node may refuse (before anything changed) or accept (then it counts exactly like the Python bool True)).  The schedule is part of the "
+    "which a node may refuse (before anything changed) or accept (then it counts exactly like the Python bool True) - "
+    "but always the same way for an identical record; a quarter of the faulted records repeat the previous one).  The schedule is part of the "
     "shrinkable case: rows carry fail_at / fail_mode and the generated quantity functions consult them.  Oracle: a row "
     "whose fault is reached (decided by the harness's own routing) makes fill raise and leaves the root's document "
     "exactly as before (no counter moved, no new bin); a row whose fault is not reached, or that has none, does not "
@@ -49,8 +50,14 @@ def strategy(tier):
                         node[slot] = draw(gen.leaf_specs(opts, ("Sum", "Average", "Minimize", "Bag")))
         stream, _ = draw(gen.streams(spec, max_rows=40 if thorough else 20, focus=draw(st.booleans())))
         rows = []
+        last_fault = None
         for r, w in stream:
             r = dict(r)
+            if last_fault is not None and draw(st.integers(0, 3)) == 0:
+                # the same failing record again (directly or after others): a node must answer it the same way every time
+                r = dict(last_fault)
+                rows.append([r, w])
+                continue
             if draw(st.integers(0, 2)) == 0:
                 targets = [(p, s_) for p, s_ in walk_spec(spec) if "q" in s_]
                 if targets and draw(st.booleans()):
@@ -65,6 +72,8 @@ def strategy(tier):
                     else:
                         r["fail_at"] = draw(st.sampled_from((0, 1, 1, 2, 2, 3)[: 2 * opts.max_depth - 2]))
                 r["fail_mode"] = draw(st.sampled_from(MODES))
+            if "fail_at" in r:
+                last_fault = r
             rows.append([r, w])
             if draw(st.integers(0, 9)) == 0:
                 # the aggregator under test need not be a freshly built one: replace it by a derived object
@@ -202,6 +211,11 @@ def check(case):
     twin = build(spec, qhook)
     before = norm.norm(h.toJson())
     successes = 0
+    verdicts = {}
+
+    def key_of(row_):
+        return (row_["fail_at"],) + tuple(sorted((k, repr(v)) for k, v in row_.items() if k not in ("fail_mode",)))
+
     nontrivial = False
     nfaults = 0
     derived = 0
@@ -219,6 +233,7 @@ def check(case):
                     o = o * 1.0
                 objs.append(o)
             h, twin = objs
+            verdicts.clear()
             after = norm.norm(h.toJson())
             d = norm.diff(before, after, norm.BITEXACT)
             require(not d, "derivation-changed-content", lambda: f"step {i}: {w} changed the content: {norm.fmt(d)}")  # noqa: B023
@@ -231,6 +246,11 @@ def check(case):
         except (ValueError, TypeError, AssertionError) as e:
             raised = e
         after = norm.norm(h.toJson())
+        if fails and row.get("fail_mode") == "wrong-d":
+            key = key_of(row)
+            verdict = "refused" if raised is not None else "accepted"
+            prev = verdicts.setdefault(key, verdict)
+            require(prev == verdict, "inconsistent-type-check", f"row {i}: the node at depth {row['fail_at']} {verdict} a numpy.bool_ that it had {prev} for an identical record before", {"mode": "wrong-d"})
         if fails and raised is None and row.get("fail_mode") == "wrong-d":
             # accepted: then it must count like the equal Python value
             twin.fill(dict(row, fail_mode="py-true"), w)
